@@ -211,6 +211,9 @@ func valueLeaves(v ssa.Value, rs *core.Resolver, depth int) []leaf {
 		}
 		return out
 	case *ssa.Call:
+		if out := funcValueLeaves(x, 0, rs, depth); out != nil {
+			return out
+		}
 		cal := x.Common().StaticCallee()
 		if cal != nil && len(cal.Blocks) > 0 && cal.Pkg != nil && x.Parent() != nil && cal.Pkg == core.Outermost(x.Parent()).Pkg && cal.Signature.Results().Len() == 1 {
 			rs2 := core.NewResolver()
@@ -232,6 +235,9 @@ func valueLeaves(v ssa.Value, rs *core.Resolver, depth int) []leaf {
 	case *ssa.Extract:
 		// one component of a multi-result module helper
 		if c, ok := x.Tuple.(*ssa.Call); ok {
+			if out := funcValueLeaves(c, x.Index, rs, depth); out != nil {
+				return out
+			}
 			cal := c.Common().StaticCallee()
 			if cal != nil && len(cal.Blocks) > 0 && cal.Pkg != nil && x.Parent() != nil && cal.Pkg == core.Outermost(x.Parent()).Pkg {
 				rs2 := core.NewResolver()
@@ -255,6 +261,36 @@ func valueLeaves(v ssa.Value, rs *core.Resolver, depth int) []leaf {
 		}
 	}
 	return []leaf{{v, rs}}
+}
+
+// funcValueLeaves: result idx of a call of a local function variable (default
+// implementation or callback): the leaves of every declared function it may
+// hold, plus the call itself when it may hold a callback.
+func funcValueLeaves(c *ssa.Call, idx int, rs *core.Resolver, depth int) []leaf {
+	fns, other := core.FuncValueCallees(c)
+	if len(fns) == 0 {
+		return nil
+	}
+	var out []leaf
+	for _, cal := range fns {
+		rs2 := core.NewResolver()
+		for k, vv := range rs.Env {
+			rs2.Env[k] = vv
+		}
+		rs2.BindTo(c, cal)
+		for _, ret := range core.Returns(cal) {
+			if cal.Recover != nil && ret.Block() == cal.Recover {
+				continue
+			}
+			if idx < len(ret.Results) {
+				out = append(out, valueLeaves(ret.Results[idx], rs2, depth+1)...)
+			}
+		}
+	}
+	if other {
+		out = append(out, leaf{c, rs})
+	}
+	return out
 }
 
 // ctxEdges lists the If edges under which `in` executes in an execution of
